@@ -54,6 +54,12 @@ def cases(rng, tier):
     # (arguments set up one and two slots before the call are NOT yet visible), discarded-result instructions
     for prog, regs in rvgen.long_programs(rng, tier):
         yield rvgen.long_case(prog, regs, "five", False, suite="sim-five-nohazard")
+    for prog, regs in rvgen.reg_sweep_programs():          # every register number as the register of a dependency
+        lines = rvgen.header("five", False, "-", "-", prog, regs, []) + ["sim.snap"]
+        for _ in range(len(prog) + 16):
+            lines += ["sim.step", "sim.snap"]
+        lines += ["sim.run 200", "sim.snap"]
+        yield Case("sim-five-nohazard", lines, None, {"mode": "five", "hazard": False, "prog": prog, "regs": regs, "pokes": [], "d": "-", "i": "-"})
     for prog, regs in rvgen.fault_schedule_programs():
         lines = rvgen.header("five", False, "-", "-", prog, regs, []) + ["sim.snap"]
         for _ in range(14):
